@@ -390,6 +390,67 @@ def rule_taint(prog, run, rid, only_files=None):
     return n_src
 
 
+# sites whose non-emptiness follows from facts outside the function (one reason each)
+FIRST_OK = {
+    'parseCustomQuery': 'only called by QXmppUri::fromString behind "!urlQuery.isEmpty()" (a non-empty query has at least one item)',
+    'QXmppUri::fromString': 'behind "!urlQuery.isEmpty()": a non-empty QUrlQuery has at least one item (asserted in the code)',
+    'QXmpp::Private::verifyHashes': 'the hash vector is built from a non-empty request list (asserted in the code)',
+    'QXmppAttentionManagerPrivate::cleanUp': 'timer callback: the timer is armed only while the list has an entry',
+    'QXmppUploadRequestManager::requestUploadSlot': 'behind serviceFound(), which is "!uploadServices.isEmpty()"',
+    'QXmppUploadRequestManager::requestSlot': 'behind serviceFound(), which is "!uploadServices.isEmpty()"',
+}
+_FIRST_NAMES = ('first', 'constFirst', 'last', 'constLast', 'takeFirst', 'takeLast', 'front', 'back', 'pop_front', 'pop_back', 'removeFirst', 'removeLast')
+
+
+def rule_first_of_nonempty(prog, run, rid):
+    n = 0
+    for f in prog.fns.values():
+        if f.raw.get('dependent') or f.entry is None or '/src/' not in f.file:
+            continue
+        for i, c in f.calls():
+            s = f.sym(c) or {}
+            if s.get('name') not in _FIRST_NAMES or c.get('obj') is None:
+                continue
+            if not any(x in (s.get('record') or '') for x in ('QList', 'QVector', 'QStringList', 'vector', 'QByteArrayList')):
+                continue
+            cont = f.fmt(c['obj'])
+            n += 1
+            run.instance(rid)
+            if any(x in cont for x in ('QString::split', 'QStringView::split', 'QByteArray::split')):
+                run.ok(rid, f.loc(i), 'result of split(): never empty', nontrivial=False)
+                continue
+            alt = {cont, f.fmt(c['obj'], inline=False)}
+            guarded = False
+            for a, pol in f.atomic_assertions_at(i):
+                t = f.fmt(a)
+                t2 = f.fmt(a, inline=False)
+                if any(x in t or x in t2 for x in alt):
+                    if (('isEmpty()' in t or 'empty()' in t) and pol is False) or any(k in t for k in ('::size()', '::count()', '::length()')):
+                        guarded = True
+            # x.isEmpty() ? y : x.first()
+            par = f.parents()
+            p_ = par.get(i)
+            hops = 0
+            while p_ is not None and hops < 6 and not guarded:
+                pn = f.nodes[p_]
+                if pn['k'] == 'cond' and any(x in f.fmt(pn['c']) for x in alt) and 'isEmpty()' in f.fmt(pn['c']):
+                    guarded = True
+                p_ = par.get(p_)
+                hops += 1
+            top = f
+            while top.is_lambda and top.parent_id in prog.fns:
+                top = prog.fns[top.parent_id]
+            if guarded:
+                run.ok(rid, f.loc(i), '%s.%s() behind a non-emptiness test' % (cont[-40:], s['name']))
+            elif top.qname in FIRST_OK or f.qname in FIRST_OK:
+                run.ok(rid, f.loc(i), 'listed: %s' % FIRST_OK.get(top.qname, FIRST_OK.get(f.qname)), nontrivial=False)
+            else:
+                run.violation(rid, '%s#first-of-possibly-empty:%s' % (top.qname, s['name']), f.loc(i),
+                              '%s takes %s() of %s without a test that the list is not empty: for an input without such an element this reads outside the list '
+                              '(undefined behaviour, a crash in practice)' % (top.display()[:50], s['name'], cont[:70]))
+    return n
+
+
 def rule_loop_progress(prog, run, rid):
     """every loop whose condition is "<local DOM node>.isNull()" re-assigns that node on every path back to the loop head"""
     n_loops = 0
@@ -669,6 +730,10 @@ def run(prog, run):
         run.rules[r9]['obligations'] += r['discharged']
         run.rules[r9]['discharged'] += r['discharged']
         run.rules[r9]['samples'] += r['samples'][:3]
+
+    r10 = run.rule('C02.R10', 'the first / last element of a list is taken (first, constFirst, last, takeFirst, front, back, ...) only behind a test that the list is not empty, or '
+                              'from a list that cannot be empty (result of split); listed exceptions carry their reason', floor=10)
+    run.extra['first_element_sites'] = rule_first_of_nonempty(prog, run, r10)
 
     r5 = run.rule('C02.R5', 'parsers terminate on sibling lists: every loop guarded by isNull() of a local DOM node advances that node on every path back to '
                             'the loop head (continue included)', floor=18)
